@@ -59,3 +59,128 @@ def same_parent_stripped(result_parent, src_parent):
     if result_parent is None:
         return False
     return And(result_parent.id == src_parent.id, result_parent.sequence is src_parent.sequence)
+
+
+# ------------------------------------------------------------------------------------------------ compound intervals
+class CompoundView:
+    """Uniform read access to the stored blocks of a CompoundInterval (engine Obj or real object)."""
+
+    def __init__(self, obj, cum=None, pre_fn=None):
+        self.obj = obj
+        self.cum = cum  # z3 function (symbolic mode) or None: prefix sums in storage order
+        self.pre_fn = pre_fn  # z3 function: prefix sums in 5'->3' order
+
+    @property
+    def n(self):
+        s = self.obj._starts
+        return s.length if hasattr(s, "length") and hasattr(s, "get") else len(s)
+
+    def S(self, j):
+        s = self.obj._starts
+        return s.get(j) if hasattr(s, "get") else s[j]
+
+    def E(self, j):
+        s = self.obj._ends
+        return s.get(j) if hasattr(s, "get") else s[j]
+
+    def cumlen(self, j):
+        """Sum of the lengths of stored blocks 0..j-1."""
+        if self.cum is not None:
+            return self.cum(j)
+        return sum(self.obj._ends[t] - self.obj._starts[t] for t in range(j))
+
+    # 5'->3' order
+    def ord(self, k):
+        return If(is_plus(self.obj.strand), k, self.n - 1 - k)
+
+    def pre(self, k):
+        """Number of bases in the first k blocks in 5'->3' order."""
+        if self.pre_fn is not None:
+            return self.pre_fn(k)
+        return If(is_plus(self.obj.strand), self.cumlen(k), self.cumlen(self.n) - self.cumlen(self.n - k))
+
+    def unfold(self, k):
+        """Instance of the defining axiom of pre at k (valid fact, 0 <= k < n): pre(k+1) = pre(k) + len(ord(k)).
+        Used as an explicit instantiation hint; it follows from the axioms, so assuming it is sound."""
+        return Implies(And(0 <= k, k < self.n), self.pre(k + 1) == self.pre(k) + self.E(self.ord(k)) - self.S(self.ord(k)))
+
+    def mono(self, a, b):
+        """Instance of the monotonicity axiom of pre."""
+        return Implies(And(0 <= a, a <= b, b <= self.n), self.pre(a) <= self.pre(b))
+
+    def covers(self, j, p):
+        return And(self.S(j) <= p, p < self.E(j))
+
+    def offset(self, j, p):
+        """Relative offset of parent position p inside stored block j, in strand direction."""
+        return If(is_plus(self.obj.strand), p - self.S(j), self.E(j) - 1 - p)
+
+
+def compound(S, name, directed=True, min_blocks=1):
+    """A well-formed CompoundInterval with a symbolic number of blocks (class invariant wf_compound, DESIGN 2.4):
+    n >= 1, 0 <= s_j <= e_j, blocks sorted by (start, end) on PLUS and (start, -end) otherwise, length = sum of block
+    lengths, start = s_0, end = e_{n-1}.  Natively built by the real constructor from already-sorted lists."""
+    if S.mode == "native" or S.mode == "concrete":
+        starts, ends = list(S.intlist(name + "_starts")), list(S.intlist(name + "_ends"))
+        strand = S.enum(STRAND, name + "_strand")
+        n = len(starts)
+        S.assume(n == len(ends) and n >= min_blocks)
+        S.assume(all(0 <= starts[j] <= ends[j] for j in range(n)))
+        plus = enum_name_is(strand, "PLUS")
+        S.assume(all((starts[j], ends[j] if plus else -ends[j]) <= (starts[j + 1], ends[j + 1] if plus else -ends[j + 1])
+                     for j in range(n - 1)))
+        if directed:
+            S.assume(not enum_name_is(strand, "UNSTRANDED"))
+        obj = S.new(COMPOUND, starts, ends, strand)
+        return obj, CompoundView(obj)
+    import z3
+    from pyvc.values import Obj
+    e = S.e
+    starts = S.intlist(name + "_starts")
+    ends = S.intlist(name + "_ends", length=starts.length)  # one length term for both lists
+    strand = e.enum_concretize(S.enum(STRAND, name + "_strand"))  # case split: quantified facts depend on it
+    n = starts.length
+    S.assume(And(n == ends.length, n >= min_blocks))
+    if directed:
+        S.assume(Not(is_unstranded(strand)))
+    j = z3.Int(name + "!j")
+    Sa, Ea = starts.arrs[0], ends.arrs[0]
+    S.assume(z3.ForAll([j], z3.Implies(z3.And(j >= 0, j < n), z3.And(0 <= Sa[j], Sa[j] <= Ea[j]))))
+    plus = is_plus(strand)
+    S.assume(z3.ForAll([j], z3.Implies(
+        z3.And(j >= 0, j < n - 1),
+        z3.Or(Sa[j] < Sa[j + 1], z3.And(Sa[j] == Sa[j + 1], z3.If(plus, Ea[j] <= Ea[j + 1], Ea[j] >= Ea[j + 1]))))))
+    cum = z3.Function(name + "_cum", z3.IntSort(), z3.IntSort())
+    S.assume(cum(0) == 0)
+    S.assume(z3.ForAll([j], z3.Implies(z3.And(j >= 0, j < n), cum(j + 1) == cum(j) + Ea[j] - Sa[j]),
+                       patterns=[cum(j + 1)]))
+    # monotonicity of the prefix sums (consequence of s_j <= e_j by induction on j; the induction step is the
+    # obligation 'lemma: prefix sums monotone' in c01_compound.py)
+    i2 = z3.Int(name + "!i2")
+    S.assume(z3.ForAll([j, i2], z3.Implies(z3.And(0 <= j, j <= i2, i2 <= n), cum(j) <= cum(i2)),
+                       patterns=[z3.MultiPattern(cum(j), cum(i2))]))
+    if strand.name == "MINUS":
+        # prefix sums in 5'->3' order (storage order reversed): same recursive definition over ord(k) = n-1-k;
+        # both functions sum all block lengths, so pre(n) = cum(n)  (spec-function lemma, see c01_compound lemmas)
+        pre = z3.Function(name + "_pre", z3.IntSort(), z3.IntSort())
+        S.assume(pre(0) == 0)
+        S.assume(z3.ForAll([j], z3.Implies(z3.And(j >= 0, j < n), pre(j + 1) == pre(j) + Ea[n - 1 - j] - Sa[n - 1 - j]),
+                           patterns=[pre(j + 1)]))
+        S.assume(z3.ForAll([j, i2], z3.Implies(z3.And(0 <= j, j <= i2, i2 <= n), pre(j) <= pre(i2)),
+                           patterns=[z3.MultiPattern(pre(j), pre(i2))]))
+        S.assume(pre(n) == cum(n))
+    else:
+        pre = cum
+    cls = e.repo.find(COMPOUND)
+    obj = Obj(cls, dict(_starts=starts, _ends=ends, strand=strand, parent=None, _single_interval_store=None,
+                        _is_overlapping=None, length=cum(n), start=Sa[0], end=Ea[n - 1]))
+    obj.attrs["$cum"] = cum
+    obj.attrs["$pre"] = pre
+    return obj, CompoundView(obj, cum, pre)
+
+
+def view(obj):
+    """CompoundView of an engine Obj built by ``compound`` or of a real CompoundInterval."""
+    if hasattr(obj, "attrs"):
+        return CompoundView(obj, obj.attrs.get("$cum"), obj.attrs.get("$pre"))
+    return CompoundView(obj)
